@@ -200,7 +200,7 @@ Section VM.
                             | None => stuck end
         | MAKEFUNC fid, VTuple vs :: st =>
             match find_code (cp_funs cp) fid with
-            | None => Stop (VStuck "funcode")
+            | None => Stop (VUnsup "internal:function-id")
             | Some fc =>
                 let nfree := length (fc_free fc) in
                 let ndef := (length vs - nfree)%nat in
@@ -278,10 +278,11 @@ Section VM.
                       | PErr => fail p true w
                       | PUnsup t => Stop (VUnsup t)
                       | POk (params, w1) =>
-                          let l0 := (map Some params ++ repeat None (fc_nlocals fc - length params))%list in
+                          let l0 := pad_init (fc_nlocals fc) (map Some params) in
                           let '(l1, w2) := spill (fc_cells fc) l0 w1 in
+                          let free' := filter (fun xc => str_in (fst xc) (fc_free fc)) free in
                           let callee := {| fr_fid := Some fid; fr_code := fc_code fc; fr_pc := 0; fr_stack := [];
-                                           fr_locals := l1; fr_iters := []; fr_free := free |} in
+                                           fr_locals := l1; fr_iters := []; fr_free := free' |} in
                           Next {| vs_frames := callee :: upd f pc st5 :: rest; vs_g := g; vs_w := w2 |}
                       end
                   end
